@@ -676,9 +676,9 @@ package forwarder
 //@     assert [args] arg1 == addr && arg2 == mtu
 //@   after call OpenGtp5gLink:
 //@     assume [A-NLOPEN] ret1 == nil ==> ret0 != nil && ret0.link != nil
-//@   after call NewClient#1:
+//@   after call gtp5gnl.NewClient#1:
 //@     assume [A-NLOPEN] ret1 == nil ==> ret0 != nil
-//@   after call NewClient#2:
+//@   after call gtp5gnl.NewClient#2:
 //@     assume [A-NLOPEN] ret1 == nil ==> ret0 != nil
 //@   after call OpenServer#1:
 //@     assume [A-NLOPEN] ret1 == nil ==> ret0 != nil
@@ -707,7 +707,7 @@ package forwarder
 //@ func (g *Gtp5g) QueryURR(lSeid uint64, urrid uint32) (usars []report.USAReport, err error)
 //@   requires g != nil && g.link != nil
 //@   modifies nothing
-//@   serves C10 C12 C07
+//@   serves C10 C12 C07 C17
 //@   at call queryURR:
 //@     assert [args] arg0 == lSeid && arg1 == urrid && !arg2
 
@@ -757,3 +757,23 @@ package forwarder
 //@   serves C03 C07
 //@   at call RemoveBAROID:
 //@     assert [oid] len(arg2) == 2 && arg2[0] == lSeid && arg2[1] == uint64(val(req.BARID()))
+
+// Goroutine confinement (C17): each netlink client is used by one goroutine only - the request/reply matching of
+// go-nl's Client is not safe for concurrent use.  client belongs to the event loop (rule installation, queries on behalf
+// of a request), psClient to the periodic-report goroutine.  queryURR / queryMultiURR serve both and choose the client
+// by their flag (call-site obligations there); the entry points fix the flag ([own]), and the confinement obligations
+// say on which goroutine each entry point can run.
+//@ func (g *Gtp5g) psQueryURR(lSeidUrridsMap map[uint64][]uint32) (usars map[uint64][]report.USAReport, err error)
+//@   requires g != nil && g.link != nil
+//@   modifies *
+//@   serves C17 C15 C07
+//@   at call queryMultiURR:
+//@     assert [own] arg0 == lSeidUrridsMap && arg1
+//@ func (g *Gtp5g) QueryMultiURR(lSeidUrridsMap map[uint64][]uint32) (usars map[uint64][]report.USAReport, err error)
+//@   requires g != nil && g.link != nil
+//@   modifies *
+//@   serves C17 C07
+//@   at call queryMultiURR:
+//@     assert [own] arg0 == lSeidUrridsMap && !arg1
+//@ confined serves C17 root perio.Server.Serve init forwarder.OpenGtp5g = func:forwarder.Gtp5g.psQueryURR
+//@ confined serves C17 root pfcp.PfcpServer.main init forwarder.OpenGtp5g = func:forwarder.Gtp5g.QueryURR func:forwarder.Gtp5g.QueryMultiURR func:forwarder.Gtp5g.CreatePDR func:forwarder.Gtp5g.UpdatePDR func:forwarder.Gtp5g.RemovePDR func:forwarder.Gtp5g.CreateFAR func:forwarder.Gtp5g.UpdateFAR func:forwarder.Gtp5g.RemoveFAR func:forwarder.Gtp5g.CreateQER func:forwarder.Gtp5g.UpdateQER func:forwarder.Gtp5g.RemoveQER func:forwarder.Gtp5g.CreateURR func:forwarder.Gtp5g.UpdateURR func:forwarder.Gtp5g.RemoveURR func:forwarder.Gtp5g.CreateBAR func:forwarder.Gtp5g.UpdateBAR func:forwarder.Gtp5g.RemoveBAR func:forwarder.Gtp5g.applyAction
